@@ -226,7 +226,8 @@ def momentum(U, rep, tier):
     bad = None
     calls = 0
     for t in range(trials):
-      avn.field_mode(seed0 * 1000 + t, decide=finite)
+      # first trial: every undecided gate open (contacts and limits active); then random gate values
+      avn.field_mode(seed0 * 1000 + t, decide=finite, bool_default=1 if t == 0 else None)
       try:
         got, want, I = run_step(U, backend, build, None, cut_points=False)
         calls += I.calls
